@@ -27,7 +27,34 @@ def corner_docs() -> list[str]:
         # tables: escaped pipes, header / body rows at code indentation
         "|a\\|b|c|\n|-|-|\n|x\\|y|z|\n", "    |a|b|\n|-|-|\n", "|a|b|\n|-|-|\n    |c|d|\n", "|a|b|\n|-|-|\n\nafter\n",
         # typographer: inch marks
-        '1"" 2" x 3\'\' "q"\n', "```\n", "```\nx\n``"]
+        '1"" 2" x 3\'\' "q"\n', "```\n", "```\nx\n``"] + [
+        # -- shapes that the sixth round of seeded changes needed (each stands for a family the generators now also produce) --
+        # character references to a line feed in a definition's title, the definition last in a container / in the document
+        '- [foo]: /url "first&#10;second"\n', "intro\n\n> [foo]: /url 'first&#xA;second'\n", '[foo]: /url "a&NewLine;b"\n',
+        # a title line that ends in a backslash
+        '[r]: /url "one\\\ntwo"\n[s]: /other\n\npara [a][r] and [b][s]\n',
+        # open indented fence in a quote, marker-only last line, no final line feed
+        ">  ```\n>", ">  ~~~ python\n> x = 1\n>", "> - ```\n>  ", "- >  ```\n  >",
+        # image in an image description, with an escape / entity inside
+        "![![a\\*b](y)](x)\n", "![badge ![AT&amp;T logo](l.png) here](b.png)\n", "![a&ast;b &amp; c](x)\n", "![&#x2A;](x)\n",
+        # odd closing tilde run at the end of a link text
+        "[a~~b~~~](x)\n", "- item [~~x ~~y~~~~~](z)\n",
+        # characters str.splitlines / str.strip / str.isspace treat as line ends or blanks and Markdown does not
+        "foo\x0cbar\n", "# title\u2028more\n\ntext\n", "\u3000# \u898b\u51fa\u3057\n\u672c\u6587\n", "> \u3000# h\n> t\n",
+        "*\x1fa*\n", "**a\x1f**\n", "a\x85b\x1cc\x1dd\x1ee\n",
+        # thematic breaks with tabs; code spans of blanks only
+        "*\t*\t*\n", "- -\t-\n", "***\t\n", "> *\t*\t*\n", "x `   ` y\n", "a ` \n ` b\n", "`    ` `     `\n",
+        # pairs of different kinds that close in the wrong order around a complete pair
+        "_a **b_ *c* d**\n", "~~a *b~~ **c** d*\n",
+        # a table directly followed by an ordered-list line, after a paragraph; a list whose last item is empty
+        "some introductory paragraph\n\n| a | b |\n|---|---|\n| 1 | 2 |\n2. item\n", "## Shopping\n- milk\n-\n", "- milk\n-\n",
+        # backslash hard break followed by a tab; wrapped definitions indented with tabs
+        "foo\\\n\tbar\n", "> foo\\\n  \tbar\n", "[foo]:\n\t/url\n\n[foo]\n", "[foo]: /url\n\t'the title'\n\n[foo]\n", "[foo]:\t/url\n\n[foo]\n",
+        # e-mail autolinks with typographic / URL-unsafe characters in the local part
+        "<o'brien@example.com> <a{b@example.com> <100%@example.com> <dev--null@example.com>\n",
+        # label-only definition line followed by an interrupting block, in an item with a wide content column
+        "10. [foo]:\n    ***\n\n    see [foo]\n", "-   [foo]:\n    ```\n    x\n    ```\n",
+    ]
 
 
 @lru_cache(maxsize=1)
@@ -265,4 +292,7 @@ def line_alphabet() -> list[str]:
         "\u00b9. a", "\u2461) a", "\u0663. a", "1\u00b3. a", "```\u00a0", "\u00a0\u3000",
         # marker-only ATX lines at and past the level limit
         "######", "#######", "########## ",
+        # leaf openers indented inside a container (content the container strips a prefix from), and marker-only container lines
+        # that move a line start to the very end of the source when they come last without a line feed
+        ">  ```", ">  ~~~ x", "> - ```", "- >  ```", "-  ```", "  >", ">  ", ">  <div>", ">     a", ">  [a]:", "  > ",
     ]
